@@ -139,12 +139,30 @@ func main() {
 	go noargs()
 	wg.Wait()
 	wg0.Wait()
+	// builtins as the callee of a go statement: two of them with the same
+	// argument types, one after the other
+	done := make(chan int)
+	done2 := make(chan int, 1)
+	go println(done) // prints an address: not a line the oracle reads
+	go close(done)
+	<-done
+	go println(done2)
+	go close(done2)
+	_, ok := <-done2
+	mm := map[int]int{1: 1, 2: 2}
+	go delete(mm, 1)
+	for len(mm) != 1 {
+		var y sync.Mutex // a scheduling point
+		y.Lock()
+		y.Unlock()
+	}
+	println("G builtins", ok, len(mm))
 	println("G done")
 }
 `, seedv)
 		x := seedv
 		exp := []string{fmt.Sprintf("G T.M 1 %d", x), fmt.Sprintf("G P.M 2 %d", x+1000), fmt.Sprintf("G T.M 3 %d", x+2000),
-			fmt.Sprintf("G closure %d %d", x+3000, x+3001), fmt.Sprintf("G many %d true str 7 seven 3 true 1099511627776 5", (x+4000)%100), "G f1", "G noargs", "G done"}
+			fmt.Sprintf("G closure %d %d", x+3000, x+3001), fmt.Sprintf("G many %d true str 7 seven 3 true 1099511627776 5", (x+4000)%100), "G f1", "G noargs", "G builtins false 1", "G done"}
 		ps = append(ps, bProgram{"go-statement-shapes", src, exp})
 	}
 	// 1c. go statements in a helper that returns at once (scalar arguments only, top-level
